@@ -17,4 +17,5 @@ Extraction "model.ml"
   dict_get dict_set dict_del dict_len choose_first ref_get ref_set ref_del
   init_state decode decode_stream has_stale Build_dconfig as_int64 as_bytes as_string
   encode run_w output Build_econfig norm unerase reify erase fits_proto
-  asm iproto sd_step sd_run program pyload pyval_of decode_all1 Build_bst pd_merge qload qheap_get asm_all dis.
+  asm iproto sd_step sd_run program pyload pyval_of decode_all1 Build_bst pd_merge qload qheap_get asm_all dis
+  hmap inv_load inv_g.
